@@ -52,7 +52,12 @@ func c05InSitu(t *testing.T, rec *ev.Rec) {
 	// conservation leaves the pair escrow short, and every later batch of that app
 	// fails as soon as the short-changed order has to be refunded
 	if ev.ShardNo() == 0 {
-		c05InSituChain(t, rec, rnd, 1, true)
+		c05InSituChain(t, rec, rnd, 1, true, false)
+	}
+	// resting-order scenarios: a long-lived buy order is filled partly at a price better than its limit and then
+	// meets, batch after batch, more sell liquidity than it has left
+	for i := 0; i < ev.Pick(3, 12); i++ {
+		c05InSituChain(t, rec, rnd, 1, false, true)
 	}
 	total := ev.Pick(24, 240)
 	perChain := 24
@@ -62,11 +67,11 @@ func c05InSitu(t *testing.T, rec *ev.Rec) {
 		if total-done < n {
 			n = total - done
 		}
-		done += c05InSituChain(t, rec, rnd, n, false)
+		done += c05InSituChain(t, rec, rnd, n, false, false)
 	}
 }
 
-func c05InSituChain(t *testing.T, rec *ev.Rec, rnd *rand.Rand, nScen int, crafted bool) (scenariosDone int) {
+func c05InSituChain(t *testing.T, rec *ev.Rec, rnd *rand.Rand, nScen int, crafted, resting bool) (scenariosDone int) {
 	huge := sdkmath.NewIntWithDecimal(1, 45)
 	var bal sdk.Coins
 	for i := 0; i < nScen; i++ {
@@ -123,6 +128,10 @@ func c05InSituChain(t *testing.T, rec *ev.Rec, rnd *rand.Rand, nScen int, crafte
 		if isCrafted {
 			nT = 1
 		}
+		isResting := resting && sc == 0
+		if isResting {
+			nT = 2 + rnd.Intn(3)
+		}
 		var ticks []sdkmath.LegacyDec
 		for i := 0; i < nT; i++ {
 			ticks = append(ticks, amm.TickFromIndex(idx0+i, prec))
@@ -150,6 +159,10 @@ func c05InSituChain(t *testing.T, rec *ev.Rec, rnd *rand.Rand, nScen int, crafte
 		if isCrafted {
 			nBatches = 2
 		}
+		if isResting {
+			nBatches = 3
+		}
+		var restA *big.Int
 		for batch := 1; batch <= nBatches; batch++ {
 			type plan struct {
 				buy      bool
@@ -165,6 +178,19 @@ func c05InSituChain(t *testing.T, rec *ev.Rec, rnd *rand.Rand, nScen int, crafte
 				} else {
 					plans = []plan{{true, centre, big.NewInt(1261), time.Minute}, {false, centre, big.NewInt(1250), time.Minute}}
 				}
+			} else if isResting {
+				top, bottom := ticks[len(ticks)-1], ticks[0]
+				if restA == nil {
+					restA = new(big.Int).Div(new(big.Int).Mul(big.NewInt(100), c05Ten18), bottom.BigInt())
+					restA.Add(restA, big.NewInt(1)).Mul(restA, big.NewInt(int64(4+rnd.Intn(40)))).Add(restA, big.NewInt(int64(rnd.Intn(50))))
+				}
+				switch batch {
+				case 1:
+					plans = []plan{{true, top, restA, time.Minute}, {false, bottom, new(big.Int).Quo(restA, big.NewInt(int64(2+rnd.Intn(3)))), 0}}
+				default:
+					plans = []plan{{false, bottom, new(big.Int).Add(restA, big.NewInt(int64(rnd.Intn(30)))), 0}}
+				}
+				rec.Count("insitu_resting_order_batches", 1)
 			} else {
 				nb, ns := rnd.Intn(6), rnd.Intn(6)
 				for i := 0; i < nb+ns; i++ {
@@ -283,6 +309,11 @@ func c05InSituChain(t *testing.T, rec *ev.Rec, rnd *rand.Rand, nScen int, crafte
 				dBase := new(big.Int).Sub(a1[o.acct.Name].base, a0[o.acct.Name].base)
 				dQuote := new(big.Int).Sub(a1[o.acct.Name].quote, a0[o.acct.Name].quote)
 				filled := new(big.Int).Sub(o.open.BigInt(), po.OpenAmount.BigInt())
+				// the stored record over the order's whole life: never filled beyond its amount
+				if po.OpenAmount.IsNegative() || (o.buy && po.ReceivedCoin.Amount.GT(po.Amount)) || (!o.buy && po.Amount.Sub(po.OpenAmount).GT(po.Amount)) {
+					rec.Violate("C05/in-situ/order-filled-beyond-its-amount", fmt.Sprintf("order %d: amount %s, open %s, received %s", o.id, po.Amount, po.OpenAmount, po.ReceivedCoin),
+						map[string]interface{}{"history": history, "orders_before_batch": c05Descs(pre), "order_before": o.desc})
+				}
 				if filled.Sign() != 0 {
 					anyTrade = true
 					results = append(results, fmt.Sprintf("%s => open=%s remaining_offer=%s status=%s; account delta base=%s quote=%s", o.desc, po.OpenAmount, po.RemainingOfferCoin, po.Status, dBase, dQuote))
